@@ -89,6 +89,7 @@ type translator struct {
 	curPkg    string
 	usedGen   map[string]map[string]bool
 	globalOK  map[*types.Var]bool
+	escMemo   map[*types.Var]bool
 	errEnum   bool // while translating a function that compares error values (err == io.EOF)
 }
 
